@@ -226,8 +226,11 @@ class Run:
             return 2
         # confirm violations by replay (twice, identical) before they are believed
         confirmed = []
+        unconfirmed = []
         printed = set()
         for v in self.violations:
+            if len(unconfirmed) >= 40 and not confirmed:
+                break
             if self.module is not None and hasattr(self.module, "run_case") and len(confirmed) < 25:
                 try:
                     r1 = self.module.run_case(v["case"])
@@ -239,14 +242,23 @@ class Run:
                 s1 = sorted(short_hash(x["sig"]) for x in r1)
                 s2 = sorted(short_hash(x["sig"]) for x in r2)
                 if s1 != s2 or short_hash(v["sig"]) not in s1:
-                    print(
-                        "HARNESS-ERROR: violation did not replay deterministically: "
-                        + json.dumps(v["sig"])
-                        + f" first={s1} second={s2}"
-                    )
-                    self._write_evidence(wall, failed=True)
-                    return 2
+                    # seen once during the exploration but not when its history is replayed on its own: state leaked
+                    # from another transition (module-level state of the library, a damaged class).  Never believed;
+                    # fatal unless some other violation of this run does replay.
+                    unconfirmed.append((v, s1, s2))
+                    continue
             confirmed.append(v)
+        if unconfirmed and not confirmed:
+            v, s1, s2 = unconfirmed[0]
+            print(
+                "HARNESS-ERROR: violation did not replay deterministically: "
+                + json.dumps(v["sig"])
+                + f" first={s1} second={s2} ({len(unconfirmed)} such)"
+            )
+            self._write_evidence(wall, failed=True)
+            return 2
+        if unconfirmed:
+            print(f"NOTE: {len(unconfirmed)} further violation(s) seen during the exploration did not replay on their own and are not reported")
         for idx, n in sorted(self.known_hits.items()):
             e = self.findings.entries[idx]
             print(f"KNOWN-FINDING: property={self.prop} {e.get('what_fails', '')} [{n} matching cases]")
